@@ -11,7 +11,7 @@
 //! cube-group rotations with integer translations and one general rotation by 0.7 rad about (1,2,2) followed by
 //! (0.5,-1.25,2) - it turns every normal of the list and translates along it); transform_by itself is compared with the
 //! written-out image plane (R n, d + R n . t).
-//! ROUND 3: three more motions with TINY non-zero rotations (1e-7, 1e-6, 1e-5 rad; translations none / small / (1000,-500,250))
+//! ROUND 3: four more motions with TINY non-zero rotations (1e-8, 1e-7, 1e-6, 1e-5 rad; translations none / small / (1000,-500,250))
 //! and a fifth pose far from the origin (+(600,0,800): radius 1e3); Mesh::transform itself (the way the mesh is moved) is
 //! compared vertex by vertex with T * vertex for every mesh x motion.
 //! Constructors: the same solids rebuilt with Mesh::new_with_options(is_solid = true; the 4 merge / delete option pairs),
@@ -299,7 +299,7 @@ fn box_row(k: usize, via_options: bool) -> (Mesh, Vec<(usize, usize)>) {
 }
 
 pub fn run() -> Option<Report> {
-    let mut r = Report::new("watertight meshes: box 2x3x4, triangular prism, tetrahedron (convex) and an L-shaped prism (non-convex, sections with two loops), in 5 poses (identity, translation, quarter turn about z + translation, third turn about (1,1,1), quarter turn about x + (600,0,800) = far from the origin); planes: 17 normals (axis-aligned, all sign patterns of (1,1,1), (1,2,2)/3, (2,-3,6)/7, mixed-sign oblique ones) x offsets missing the mesh by 0.5, odd sixteenths of the extent, 0.25 and 2^-12 inside either end (single corners cut off, segments shorter than 1e-3); planes with a mesh vertex closer than 1e-5 skipped; section additionally compared after 8 further rigid motions (cube group + integer translations, a general one, three tiny ones); split additionally on an open two-triangle strip; the plane of every moved configuration is produced by Plane3::transform_by (8 motions incl. a general one: rotation by 0.7 rad about (1,2,2) then +(0.5,-1.25,2), and three with TINY non-zero rotations: 1e-6 rad about (1,2,2) then +(0.5,-1.25,2), 1e-7 rad about z, -1e-5 rad about (1,-1,0) then +(1000,-500,250); Mesh::transform is compared vertex by vertex with T * vertex for every mesh x motion) and split is compared across them as well; the same solids built with Mesh::new_with_options(is_solid = true, 4 option pairs) / new_with_uv / create_box(.., true) in 2 poses x 9 normals x 6 offsets; 2, 5, 6 and 10 disjoint boxes in one mesh (appended, or new_with_options is_solid = true) in 2 poses x 7 normals x 9 offsets: as many closed loops as boxes crossed; tolerance 1e-9 relative");
+    let mut r = Report::new("watertight meshes: box 2x3x4, triangular prism, tetrahedron (convex) and an L-shaped prism (non-convex, sections with two loops), in 5 poses (identity, translation, quarter turn about z + translation, third turn about (1,1,1), quarter turn about x + (600,0,800) = far from the origin); planes: 17 normals (axis-aligned, all sign patterns of (1,1,1), (1,2,2)/3, (2,-3,6)/7, mixed-sign oblique ones) x offsets missing the mesh by 0.5, odd sixteenths of the extent, 0.25 and 2^-12 inside either end (single corners cut off, segments shorter than 1e-3); planes with a mesh vertex closer than 1e-5 skipped; section additionally compared after 9 further rigid motions (cube group + integer translations, a general one, four tiny ones); split additionally on an open two-triangle strip; the plane of every moved configuration is produced by Plane3::transform_by (9 motions incl. a general one: rotation by 0.7 rad about (1,2,2) then +(0.5,-1.25,2), and four with TINY non-zero rotations: 1e-6 rad about (1,2,2) then +(0.5,-1.25,2), 1e-7 rad about z, 1e-8 rad about (0,1,1) then +(1e-8,0,0), -1e-5 rad about (1,-1,0) then +(1000,-500,250); Mesh::transform is compared vertex by vertex with T * vertex for every mesh x motion) and split is compared across them as well; the same solids built with Mesh::new_with_options(is_solid = true, 4 option pairs) / new_with_uv / create_box(.., true) in 2 poses x 9 normals x 6 offsets; 2, 5, 6 and 10 disjoint boxes in one mesh (appended, or new_with_options is_solid = true) in 2 poses x 7 normals x 9 offsets: as many closed loops as boxes crossed; tolerance 1e-9 relative");
     let q = |ax: Vector3, ang: f64| UnitQuaternion::from_axis_angle(&UnitVec3::new_normalize(ax), ang);
     let poses: Vec<(&str, Iso3)> = vec![
         ("identity", Iso3::identity()),
@@ -320,6 +320,7 @@ pub fn run() -> Option<Report> {
         // correction; with and without a translation
         ("tiny: 1e-6 rad about (1,2,2) then +(0.5,-1.25,2)", Iso3::from_parts(Translation3::new(0.5, -1.25, 2.0), q(Vector3::new(1.0, 2.0, 2.0), 1.0e-6))),
         ("tiny: 1e-7 rad about z, no translation", Iso3::from_parts(Translation3::new(0.0, 0.0, 0.0), q(Vector3::z(), 1.0e-7))),
+        ("tiny: 1e-8 rad about (0,1,1) then +(1e-8,0,0)", Iso3::from_parts(Translation3::new(1.0e-8, 0.0, 0.0), q(Vector3::new(0.0, 1.0, 1.0), 1.0e-8))),
         ("tiny: -1e-5 rad about (1,-1,0) then +(1000,-500,250)", Iso3::from_parts(Translation3::new(1000.0, -500.0, 250.0), q(Vector3::new(1.0, -1.0, 0.0), -1.0e-5))),
     ];
     let nv = |x: f64, y: f64, z: f64| Vector3::new(x, y, z).normalize();
